@@ -54,7 +54,7 @@ enum { A_LANE, A_CLIENT, A_METHOD, A_CODE, A_FLAGS, A_RLEN, A_RSEED, A_RKIND, A_
 	   A_NQ, A_NRH, A_NPH, A_RANGE, A_RB, A_RE, A_V6, A_COUNT };
 enum { S_PATH, S_METHOD, S_FIRST };
 enum { CL_REQUEST = 0, CL_STATIC = 1, CL_RAW = 2, CL_MINI = 3 };
-enum { RM_BYTES = 0, RM_STRING = 1, RM_STREAM = 2, RM_JSON = 3, RM_FILE = 4, RM_NONE = 5 };
+enum { RM_BYTES = 0, RM_STRING = 1, RM_STREAM = 2, RM_JSON = 3, RM_FILE = 4, RM_NONE = 5, RM_CHUNKED = 6 };
 enum {
 	F_KEEP = 1,        // raw: leave the connection open for the next raw op of the lane
 	F_NOFOLLOW = 2,    // library client: setFollowRedirects(false) (3xx codes are then visible)
@@ -70,7 +70,8 @@ enum {
 	F_MULTIPART = 2048,
 	F_DOWNLOAD = 4096, // library client: Http::download into a file
 	F_SETHDR = 8192,   // library client: headers through setHeader() instead of the constructor's Dic
-	F_LATECODE = 16384 // handler: setCode / headers after the body was put
+	F_LATECODE = 16384, // handler: setCode / headers after the body was put
+	F_EXPECT = 32768   // raw: "Expect: 100-continue", the body is sent after the interim response (or a short wait)
 };
 
 static const char* METHODS[] = {"GET", "POST", "PUT", "PATCH", "DELETE"};
@@ -689,7 +690,7 @@ struct Srv : public HttpServer {
 			}
 			r.setHeader("X-C10-Token", String(s.id));
 		};
-		bool late = (s.flags & F_LATECODE) && s.rmode != RM_STREAM;
+		bool late = (s.flags & F_LATECODE) && s.rmode != RM_STREAM && s.rmode != RM_CHUNKED;
 		if (!late)
 			head();
 		switch (s.rmode) {
@@ -705,6 +706,22 @@ struct Srv : public HttpServer {
 				size_t n = 1 + (size_t)g.below(g.below(3) == 0 ? 300000 : 3000);
 				if (n > s.respbody.size() - at)
 					n = s.respbody.size() - at;
+				r.write(s.respbody.data() + at, (int)n);
+				at += n;
+			}
+			break;
+		}
+		case RM_CHUNKED: {
+			// streamed without a length: the library frames every write() as chunks; it sends no last-chunk, the body ends
+			// when the server closes the connection (the request carries "Connection: close")
+			r.setHeader("Transfer-Encoding", "chunked");
+			ref::SplitMix g(s.fseed ^ 0x7c3a11);
+			int pattern = (int)((s.fseed >> 20) % 3);
+			size_t at = 0, total = s.respbody.size();
+			while (at < total) {
+				size_t n = pattern == 0 ? total : pattern == 1 ? (at == 0 ? total / 2 + 1 : total - at) : 1 + (size_t)g.below(g.below(3) == 0 ? 400000 : 3000);
+				if (n > total - at)
+					n = total - at;
 				r.write(s.respbody.data() + at, (int)n);
 				at += n;
 			}
@@ -939,8 +956,8 @@ static SpecP make_spec(const vf::Op& o, int idx, int attempt)
 	s.id = (idx + 1) % 100000 + 100000 * (attempt % 9);
 	s.lane = (int)U(A_LANE, 64);
 	s.client = (int)U(A_CLIENT, 4);
-	s.flags = (int)U(A_FLAGS, 32768);
-	s.rmode = (int)U(A_RMODE, 6);
+	s.flags = (int)U(A_FLAGS, 65536);
+	s.rmode = (int)U(A_RMODE, 7);
 	s.frag = (int)U(A_FRAG, 7);
 	s.fseed = (uint64_t)I(A_FSEED);
 	s.v6 = U(A_V6, 2) == 1 && (s.client == CL_MINI ? g_mini6 != 0 : g_srv[1] != 0);
@@ -1016,6 +1033,10 @@ static SpecP make_spec(const vf::Op& o, int idx, int attempt)
 		s.client = CL_REQUEST; // no static helper for other methods
 	if (!lib)
 		flags &= ~(F_FILEREQ | F_UPLOAD | F_MULTIPART | F_DOWNLOAD | F_STRBODY);
+	if (s.rmode == RM_CHUNKED) // a streamed response without a length ends with the connection ("Connection: close")
+		flags &= ~(F_KEEP | F_HTTP10 | F_UPLOAD | F_MULTIPART);
+	if (lib || (flags & F_HTTP10))
+		flags &= ~F_EXPECT;
 	if (flags & F_UPLOAD) {
 		flags |= F_FILEREQ;
 		flags &= ~(F_JSONREQ | F_DOWNLOAD);
@@ -1113,6 +1134,8 @@ static SpecP make_spec(const vf::Op& o, int idx, int attempt)
 
 // ------------------------------------------------------------------------------------------------ clients
 
+static std::mutex g_stat_m;
+
 struct LaneState {
 	ref::Conn conn;
 	bool conn_v6 = false;
@@ -1158,7 +1181,7 @@ static void check_response(Spec& s, int code, const std::function<std::string(co
 		if (body != s.want_body)
 			e.push_back("client: response body " + diff_bytes(body, s.want_body));
 		std::string cl = header("Content-Length");
-		if (s.client != CL_MINI && cl != std::to_string(s.want_body.size()))
+		if (s.client != CL_MINI && s.rmode != RM_CHUNKED && cl != std::to_string(s.want_body.size()))
 			e.push_back("client: Content-Length header " + vf::show(cl) + " but the body produced has " + std::to_string(s.want_body.size()) + " bytes");
 	}
 	if (s.rmode == RM_FILE && header("Content-Type") != s.want_mime)
@@ -1177,6 +1200,8 @@ static void lib_exchange(Spec& s, std::vector<std::string>& e)
 		hd[AS(h.first)] = AS(h.second);
 	if (s.range)
 		hd["Range"] = AS("bytes=" + std::to_string(s.rb) + "-" + (s.range == 1 ? std::to_string(s.re) : ""));
+	if (s.rmode == RM_CHUNKED)
+		hd["Connection"] = "close";
 	int f = s.flags;
 	if (f & F_DOWNLOAD) {
 		bool ok = Http::download(url, AS(s.dlfile), Http::Progress(), hd);
@@ -1229,6 +1254,8 @@ static void lib_exchange(Spec& s, std::vector<std::string>& e)
 			}
 			if (s.range)
 				req.setHeader("range", hd["Range"]);
+			if (s.rmode == RM_CHUNKED)
+				req.setHeader("connection", "close");
 		}
 		if (f & F_FILEREQ)
 			req.put(asl::File(AS(s.reqfile)));
@@ -1282,17 +1309,51 @@ static std::string raw_once(Spec& s, LaneState& L, bool reuse, bool& nothing, do
 		hs.push_back(std::make_pair(std::string((s.fseed & 64) ? "connection" : "Connection"), std::string(keep ? "keep-alive" : "close")));
 	size_t head_len = 0;
 	std::vector<size_t> lines;
-	bool add_len = !s.reqbody.empty() || (s.fseed & 128);
+	bool expect = (f & F_EXPECT) != 0;
+	if (expect)
+		hs.push_back(std::make_pair(std::string((s.fseed & 256) ? "expect" : "Expect"), std::string("100-continue")));
+	bool add_len = !s.reqbody.empty() || (s.fseed & 128) || expect;
 	std::string wire = ref::http_build(s.method + " " + s.target + (http10 ? " HTTP/1.0" : " HTTP/1.1"), hs, s.reqbody, chunked,
 									   make_chunks(s.fseed + 1, s.reqbody.size()), (f & F_UPPERHEX) != 0, add_len, &head_len, &lines);
 	std::vector<size_t> cuts = make_cuts(s.frag, s.fseed, wire.size(), head_len, lines);
-	bool sent = L.conn.send_frags(wire, cuts, (int)((s.fseed >> 8) % 3), s.fseed);
-	gap = L.conn.max_gap;
+	bool sent;
+	if (!expect)
+		sent = L.conn.send_frags(wire, cuts, (int)((s.fseed >> 8) % 3), s.fseed);
+	else {
+		// head first; then wait (bounded: RFC 9110 lets a client go on after a short time) for the interim response
+		std::vector<size_t> hc, bc;
+		for (size_t c : cuts)
+			(c < head_len ? hc : bc).push_back(c < head_len ? c : c - head_len);
+		sent = L.conn.send_frags(wire.substr(0, head_len), hc, (int)((s.fseed >> 8) % 3), s.fseed);
+		gap = L.conn.max_gap;
+		bool interim = false;
+		if (sent && L.conn.wait_readable(3000)) {
+			ref::Message im;
+			std::string ierr = L.conn.read_message(im, true, &nothing, true);
+			if (!ierr.empty())
+				return "raw client: after 'Expect: 100-continue': " + ierr;
+			if (im.status() != 100) {
+				L.conn.close();
+				return "raw client: the server answered " + vf::show(im.start, 100) + " to the head of a request with 'Expect: 100-continue' before the body was sent: a status the handler never produced (100 Continue or nothing expected)";
+			}
+			interim = true;
+		}
+		{
+			std::lock_guard<std::mutex> l(g_stat_m);
+			vf::stats().cls(interim ? "raw.expect.got_100_continue" : "raw.expect.no_interim_within_3s_body_sent_anyway");
+		}
+		if (sent && wire.size() > head_len)
+			sent = L.conn.send_frags(wire.substr(head_len), bc, (int)((s.fseed >> 8) % 3), s.fseed + 1);
+	}
+	if (L.conn.max_gap > gap)
+		gap = L.conn.max_gap;
 	L.conn_uses++;
 	if ((f & F_SMALLRCV) && sent)
 		usleep(2000);
 	ref::Message m;
-	std::string err = L.conn.read_message(m, true, &nothing);
+	std::string err = L.conn.read_message(m, true, &nothing, false, s.rmode == RM_CHUNKED);
+	while (err.empty() && m.status() >= 100 && m.status() < 200) // a late interim response
+		err = L.conn.read_message(m, true, &nothing, false, s.rmode == RM_CHUNKED);
 	if (!sent && nothing)
 		return "raw client: send failed and no response";
 	if (!err.empty())
@@ -1303,8 +1364,8 @@ static std::string raw_once(Spec& s, LaneState& L, bool reuse, bool& nothing, do
 	}, m.body, e);
 	if (m.status() < 0)
 		e.push_back("raw client: malformed status line " + vf::show(m.start, 100));
-	if (!m.has_length)
-		e.push_back("raw client: response without Content-Length");
+	if (s.rmode == RM_CHUNKED ? !m.chunked : !m.has_length)
+		e.push_back(s.rmode == RM_CHUNKED ? "raw client: streamed response is not chunked" : "raw client: response without Content-Length");
 	if (!keep) {
 		// "Connection: close" / HTTP/1.0: the server ends the connection after this response; nothing may follow it
 		size_t extra = L.conn.drain_to_eof();
@@ -1395,7 +1456,6 @@ static Outcome do_exchange(const vf::Op& o, int idx, int attempt, LaneState& L, 
 
 // ------------------------------------------------------------------------------------------------ running a case
 
-static std::mutex g_stat_m;
 
 static void record_stats(const Spec& s, int lanes, const Outcome& out)
 {
@@ -1448,6 +1508,14 @@ static void record_stats(const Spec& s, int lanes, const Outcome& out)
 		st.cls(s.range == 1 ? (s.rb == s.re ? "file.range_single_byte" : "file.range_b-e") : s.range == 2 ? "file.range_b-" : "file.whole");
 	if (s.rmode == RM_STREAM)
 		st.cls("response.streamed_write");
+	if (s.rmode == RM_CHUNKED) {
+		int pattern = (int)((s.fseed >> 20) % 3);
+		size_t big = pattern == 0 ? s.respbody.size() : pattern == 1 ? s.respbody.size() / 2 + 1 : 0;
+		st.cls("response.chunked_stream");
+		st.cls(big > 128000 ? "response.chunked_stream.one_write_over_128000" : pattern == 2 ? "response.chunked_stream.random_pieces" : "response.chunked_stream.writes_up_to_128000");
+	}
+	if (s.client == CL_RAW && (s.flags & F_EXPECT))
+		st.cls(std::string("raw.expect.") + ((s.flags & F_CHUNKED) ? "chunked" : s.reqbody.empty() ? "content_length_0" : "content_length"));
 	if (s.rmode == RM_STRING)
 		st.cls("response.put_string");
 	if (s.flags & F_FILEREQ)
@@ -1735,6 +1803,7 @@ static rc::Gen<vf::Op> genEx(int profile, int maxlen, int lanes)
 		if (pct(profile == P_FILES ? 25 : 3)) flags |= F_DOWNLOAD;
 		if (pct(40)) flags |= F_SETHDR;
 		if (pct(30)) flags |= F_LATECODE;
+		if (pct(12)) flags |= F_EXPECT;
 		o.a[A_FLAGS] = flags;
 		o.a[A_RLEN] = pct(25) ? 0 : genLen(maxlen);
 		o.a[A_RSEED] = *vf::irange<int>(0, 1 << 30);
@@ -1744,7 +1813,7 @@ static rc::Gen<vf::Op> genEx(int profile, int maxlen, int lanes)
 		o.a[A_PKIND] = *vf::irange<int>(0, 4);
 		int r = *vf::irange<int>(0, 99);
 		o.a[A_RMODE] = profile == P_FILECONC ? RM_FILE : profile == P_FILES ? (r < 85 ? RM_FILE : RM_BYTES) : profile == P_JSON ? (r < 70 ? RM_JSON : RM_BYTES)
-					   : (r < 40 ? RM_BYTES : r < 50 ? RM_STRING : r < 65 ? RM_STREAM : r < 73 ? RM_JSON : r < 90 ? RM_FILE : RM_NONE);
+					   : (r < 36 ? RM_BYTES : r < 45 ? RM_STRING : r < 58 ? RM_STREAM : r < 67 ? RM_CHUNKED : r < 75 ? RM_JSON : r < 91 ? RM_FILE : RM_NONE);
 		o.a[A_FRAG] = *vf::irange<int>(0, 6);
 		o.a[A_FSEED] = *vf::irange<int>(0, 1 << 30);
 		int rg = *vf::irange<int>(0, 99);
@@ -1852,7 +1921,7 @@ void vf_search(const vf::Args& a)
 		int client = k % 3 == 0 ? CL_RAW : k % 3 == 1 ? CL_REQUEST : (k % 6 == 2 ? CL_STATIC : CL_MINI);
 		o.a[A_CLIENT] = client;
 		o.a[A_METHOD] = 1 + (k / 3) % 3; // POST PUT PATCH
-		o.a[A_FLAGS] = (long long)(rng.below(32768) & ~(F_JSONREQ | F_FILEREQ | F_UPLOAD | F_MULTIPART | F_DOWNLOAD | F_HTTP10 | F_SMALLRCV | F_STRBODY));
+		o.a[A_FLAGS] = (long long)(rng.below(rng.below(6) ? 32768 : 65536) & ~(F_JSONREQ | F_FILEREQ | F_UPLOAD | F_MULTIPART | F_DOWNLOAD | F_HTTP10 | F_SMALLRCV | F_STRBODY));
 		o.a[A_RLEN] = (long long)rlen;
 		o.a[A_RSEED] = (long long)rng.below(1 << 30);
 		o.a[A_RKIND] = (long long)rng.below(3);
@@ -1860,7 +1929,7 @@ void vf_search(const vf::Args& a)
 		o.a[A_PSEED] = (long long)rng.below(1 << 30);
 		o.a[A_PKIND] = (long long)rng.below(3);
 		int rm = (int)rng.below(10);
-		o.a[A_RMODE] = rm < 6 ? RM_BYTES : rm < 8 ? RM_STREAM : RM_FILE;
+		o.a[A_RMODE] = rm < 5 ? RM_BYTES : rm < 7 ? RM_STREAM : rm < 8 ? RM_CHUNKED : RM_FILE;
 		o.a[A_FRAG] = (long long)rng.below(7);
 		o.a[A_FSEED] = (long long)rng.below(1 << 30);
 		o.a[A_V6] = rng.below(8) == 0;
@@ -1932,6 +2001,44 @@ void vf_search(const vf::Args& a)
 				if (!run_ops("bigsizes", one))
 					return;
 			}
+		}
+		// streamed chunked responses whose write() calls are larger than the library's 128000-byte send block
+		{
+			std::vector<size_t> cs = {127999, 128000, 128001, 256000, 256001, 300000, (512u << 10) + 1};
+			if (!quick)
+				cs.push_back((1u << 20) + 3);
+			int k = 0;
+			for (size_t len : cs)
+				for (int pattern = 0; pattern < 2; pattern++)
+					for (int cl = 0; cl < 3; cl++, k++) {
+						if (k % W != a.worker)
+							continue;
+						vf::Op o = sized(cl == 0 ? 0 : cl == 1 ? 1 : 2, (size_t)rng.below(2000), len);
+						o.a[A_RMODE] = RM_CHUNKED;
+						o.a[A_FSEED] = ((long long)pattern << 20) | (long long)rng.below(1 << 20);
+						std::vector<vf::Op> one = {o};
+						n++;
+						if (!run_ops("bigsizes", one))
+							return;
+					}
+		}
+		// Expect: 100-continue from the raw client: with a length, chunked, and with Content-Length: 0
+		{
+			int k = 0;
+			for (size_t len : {(size_t)0, (size_t)1, (size_t)5000, (size_t)70000, (size_t)200000})
+				for (int framing = 0; framing < 2; framing++)
+					for (int keep = 0; keep < 2; keep++, k++) {
+						if (k % W != a.worker)
+							continue;
+						vf::Op o = sized(0, len, (size_t)rng.below(3000));
+						o.a[A_FLAGS] = (o.a[A_FLAGS] & ~(F_CHUNKED | F_KEEP)) | F_EXPECT | (framing ? F_CHUNKED : 0) | (keep ? F_KEEP : 0);
+						vf::Op o2 = sized(3, (size_t)rng.below(300), (size_t)rng.below(300)); // next request on the same lane / connection
+						o2.a[A_LANE] = o.a[A_LANE];
+						std::vector<vf::Op> two = {o, o2};
+						n += 2;
+						if (!run_ops("bigsizes", two))
+							return;
+					}
 		}
 		vf::stats().part("bigsizes", n, false);
 	}();
